@@ -108,6 +108,7 @@ func init() {
 		{"C18", "retained", props.RetainedCallerSlices("ot", "sha2pc")},
 		{"C13", "hexwidth", props.HexWidthAgreement},
 		{"C13", "typetext", props.C14types},
+		{"C13", "oneshift", props.OneShiftBounded("circuit", "types")},
 		{"C17", "sharedtable", props.MemoSyncMaps("circuit", "ot", "p2p", "gmw", "compiler/ssa", "compiler/circuits", "compiler/mpa", "compiler/ast", "compiler")},
 		{"C08", "sharedtable", props.MemoSyncMaps("compiler/ssa", "compiler/circuits", "compiler/mpa", "compiler/ast", "compiler", "circuit")},
 		{"C16", "garble", props.C01},
